@@ -2,7 +2,7 @@ import TxV.Model.POAllocator
 open TxV TxV.Proto TxV.POAllocator
 
 /-- protocol:
-    `cfg n=3` → `ok`
+    `cfg n=3 ff=1` → `ok`   (`ff` = `free` has priority over `free_idx` when both are attempted)
     `cyc a=1 f=- x=- o=1 c=0` → `a=0 f=0 x=0 o=0:0,1,2 c=0 rdy=1`
     input: `a` alloc attempt, `f` free(ident) or `-`, `x` free_idx(idx) or `-`, `o` order attempt, `c` clear.
     output: returned identifier or `-`; done bits of free, free_idx; `used:order` or `-`; done bit of
@@ -13,13 +13,13 @@ def parseCall (t : List String) (key : String) : Option (Option Nat) :=
   | some v => (v.toNat?).map some
   | none => none
 
-def stepLine (ns : Nat × State) (line : String) : (Nat × State) × String :=
-  let (n, s) := ns
+def stepLine (ns : (Nat × Bool) × State) (line : String) : ((Nat × Bool) × State) × String :=
+  let ((n, ff), s) := ns
   let t := tokens line
   match t.head? with
   | some "cfg" =>
     match nat? t "n" with
-    | some n' => if n' = 0 then (ns, "bad-op") else ((n', init n'), "ok")
+    | some n' => if n' = 0 then (ns, "bad-op") else (((n', natD t "ff" 1 == 1), init n'), "ok")
     | none => (ns, "bad-op")
   | some "cyc" =>
     match nat? t "a", parseCall t "f", parseCall t "x", nat? t "o", nat? t "c" with
@@ -27,12 +27,12 @@ def stepLine (ns : Nat × State) (line : String) : (Nat × State) × String :=
       let lim := 2 ^ bitsFor (n - 1)
       if a > 1 || o > 1 || cl > 1 || f.getD 0 ≥ lim || x.getD 0 ≥ lim then (ns, "bad-op") else
       let i : In := { alloc := a == 1, free := f, freeIdx := x, order := o == 1, clear := cl == 1 }
-      let (s', r) := step n s i
+      let (s', r) := stepP n ff s i
       let so := match r.order with
         | some (u, l) => s!"{u}:{showList l}"
         | none => "-"
-      ((n, s'), s!"a={showOpt r.alloc} f={showBool r.free} x={showBool r.freeIdx} o={so} c={showBool r.clear} rdy={showBool (s.used != n)}")
+      (((n, ff), s'), s!"a={showOpt r.alloc} f={showBool r.free} x={showBool r.freeIdx} o={so} c={showBool r.clear} rdy={showBool (s.used != n)}")
     | _, _, _, _, _ => (ns, "bad-op")
   | _ => (ns, "bad-op")
 
-def main : IO Unit := Proto.run (1, init 1) stepLine
+def main : IO Unit := Proto.run ((1, true), init 1) stepLine
